@@ -3,9 +3,10 @@ REG_DRAFT = dict(
     engine='E1-enum',
     technique='bounded-exhaustive enumeration of programs x every expression span (wrap_in_dbg) and every let-name / parameter / function-header position (add_type_annotation); the produced program is parsed, checked and run on the real implementation and compared with the original',
     text='wrap_in_dbg: every value-expression span inside the context statements of the C20 program space (placement x context x expression). Oracle: the produced program parses, stdout / final value / outcome / test verdicts are those of the original (stderr ignored). add_type_annotation: every un-annotated let name, parameter (function, closure) and function / closure header of the same programs, plus a typed family: 50 values of distinct types (scalars, lists, options, results, tuples, structs, generic structs, enums, closures, constructors and functions as values, dicts, generic calls) x 6 positions quick / 10 thorough (let in function / at top level / in a closure in a test, function return, closure return, closure parameter typed by its use; thorough: match arm, method return, let of let, return after early return). Oracle: produced program parses; the set of `check` error messages does not grow; same run behaviour.',
-    note='Selections are exact node spans / the first offset of the symbol. Statement forms (let, return, break, assert as a whole) are not value expressions: wrapping them is counted, not judged. Warnings of `check` are ignored.',
+    note='Selections are exact node spans / the first offset of the symbol. Statement forms (let, return, break, assert as a whole) are wrapped by the tool as well: they are judged like expressions when the result parses and only counted when it does not. Warnings of `check` are ignored.',
     design_ref='DESIGN.md §6 C21',
 )
+REG = REG_DRAFT
 
 import os, re
 from ..core import Machinery
@@ -140,8 +141,9 @@ def run(ctx):
             ctx.violation(cls + ": produced program crashes the interpreter", {"src": U["src"], **where, "produced": new, "result": str(r)[:300]})
             continue
         if tool == "wrap_in_dbg" and not s["value_expr"]:
-            ctx.outcome("wrap_in_dbg: statement form wrapped -> " + ("parse error" if "parse_errors" in r else "parses") + " (counted, not judged)")
-            continue
+            ctx.outcome("wrap_in_dbg: statement form (let / assign / return / break / assert) wrapped -> " + ("parse error" if "parse_errors" in r else "parses"))
+            if "parse_errors" in r:
+                continue      # a statement form is not an expression in the user's sense: counted, not judged
         d = None
         if "parse_errors" in r:
             d = "parse error"
@@ -173,6 +175,8 @@ def run(ctx):
             cmd = f"garden reftest-add-type-annotation <file> {s['offset']} {s['offset']}"
         ut = refgen.unbound_type(d)
         sig = f"{tool}: the emitted annotation mentions the non-existent type `{ut}`" if ut and tool == "add_type_annotation" else f"{cls}: {d}"
+        if tool == "add_type_annotation" and "__ERROR" in s["annotation"]:
+            sig = f"{tool}: the emitted annotation contains the internal error-type text `__ERROR(…)`"
         ctx.violation(sig, detail, cli_cmd=cmd + " > out.gdn; garden check out.gdn; garden run out.gdn")
         ctx.outcome(f"{tool}:{d.split(':')[0]}")
     # CLI confirmation (up to 12)
@@ -213,5 +217,5 @@ def run(ctx):
 
 
 def normalise(msg):
-    msg = re.sub(r"`[^`]*`", "`…`", msg)
+    msg = re.sub(r"`[^`]*`", "`…`", msg).replace(" an `", " a `")
     return msg[:100]
